@@ -888,5 +888,36 @@ func vcRunC14PersistentFault(t *vcTrial) {
 			return
 		}
 	}
+	// addresses that do not fit the socket family (only reachable through the exported DialTCP):
+	// an error, and nothing left behind
+	before := vcOpenFDs()
+	mism := 0
+	for i := 0; i < 20; i++ {
+		var c *TCPConnection
+		var err error
+		if i%2 == 0 {
+			c, err = DialTCP(context.Background(), "tcp4", nil, &TCPAddr{TCPAddr: net.TCPAddr{IP: net.ParseIP("::1"), Port: 9}})
+		} else {
+			c, err = DialTCP(context.Background(), "tcp4", &TCPAddr{TCPAddr: net.TCPAddr{IP: net.ParseIP("::1")}}, &TCPAddr{TCPAddr: net.TCPAddr{IP: net.IPv4(127, 0, 0, 1), Port: 9}})
+		}
+		if err == nil && c != nil {
+			c.Close()
+		} else {
+			mism++
+		}
+	}
+	var diff []string
+	for dl := time.Now().Add(2 * time.Second); ; {
+		diff = vcFDDiff(before, vcOpenFDs())
+		if len(diff) == 0 || time.Now().After(dl) {
+			break
+		}
+		time.Sleep(2 * time.Millisecond)
+	}
+	if len(diff) > 0 {
+		t.Violate("C14", "descriptor_leak", "20 DialTCP calls with an address that does not fit the socket family (%d failed) left %d descriptor(s) behind: %v", mism, len(diff), diff)
+		return
+	}
+	t.Stat("family_mismatch_dials", 20)
 	t.Nontrivial, t.Sig = true, "persistent-fault"
 }
